@@ -40,6 +40,18 @@ CLAIMED = {
  'C10': dict(level=MC, ref='6 C10', technique='TLC model checking (safety + liveness) of RpcStream.tla + trace validation + ungated close/disconnect scenarios incl. poll mode',
    text='TLC checks StreamsStoppedAfterLoss / SiblingsUndisturbed and, under fairness of library steps and of readers, HandlersReturn / ClosedStreamUnblocks for ServeCodec and poll teardown; counterexamples of NoClientSweep / CloseWrongEntry / PollNoStreamSweep and random behaviours are replayed; at the end of every run no ReadMessage, NewStream or Close may still be blocked and every handler must have been able to return; scenarios close streams or drop the connection under blocked reads on poll and non-poll servers with sibling streams.',
    note=STREAM_NOTE),
+ 'C07': dict(level='exploration', ref='6 C07', technique='TLC-enumerated boundary vectors of Wire.tla (the documented formats as TLA+ operators) compared byte for byte with the real encoders',
+   text='Wire.tla writes the protobuf, code and JSON header formats and the upgrade byte as pure operators (varints as base-128 digit lists so 64-bit sequence numbers fit); TLC enumerates the vector space (every encoder x direction x field boundary 0/1/127/128/16383/16384/2097151/2097152 x sequence boundaries up to 2^64-1 x output-buffer shapes nil/small/exact/large/dirty) and prints each vector with its expected encoding; the harness encodes each with the real encoder into the prescribed reused buffer, compares the bytes with the specification (JSON key by key), decodes them back and compares the fields, checks foreign encodings of the same format decode, and does the same for all 32 upgrade flag combinations and every byte 0..255. Not a model-checking claim: the property is about a pure function, so the specification serves as the oracle and the generator.',
+   note='Trusted base: TLC; Wire.tla as the statement of the documented formats; the harness filler (seeded bytes, valid UTF-8 for JSON). Bounds: field lengths up to 2 MiB, one field at its boundary at a time plus corners.'),
+ 'C08': dict(level='fault_enumeration', ref='6 C08', technique='TLC-enumerated dispatch cases (SrvDispatch.tla) and teardown model (SrvTeardown.tla) + exhaustive truncation/corruption of real frames against live servers and clients in worker processes',
+   text='SrvDispatch.tla makes request dispatch a total function of (upgrade byte 0..255, method kind, argument kind, known stream id) to an outcome class; TLC enumerates the 6144 cases and each is sent as a frame to a real server whose answer class must match, after which a well-formed probe must still be served; SrvTeardown.tla checks the reader/decode-queue/handler/WaitGroup protocol of ServeCodec and the poll branch (no Add after Wait began, codec closed after the last handler) and its WaitBeforeDrain deviation gives the burst schedules that are run against real servers (N queued requests then disconnect); every truncation and single-byte corruptions (xor 0x01 / 0x80 / 0xFF / zero at each position) of every valid frame under every header encoder is delivered to a server and to a client, each in a crash-isolated worker with a progress file so a panic is attributed to the exact frame; other connections must keep being served.',
+   note='Trusted base: TLC; the worker harness (rawConn frames on a UNIX socket); a crash is a process exit with a Go panic banner from library frames. Bounds: the valid frames are those of the harness workload (unary, heartbeat, stream open/message/close, error responses) under each header encoder; burst sizes and repetitions are in the evidence file.'),
+ 'C11': dict(level='exploration', ref='6 C11', technique='TLC model checking of Buffers.tla (buffer ownership) + retention workloads on the real library bound path by path to the model; BuffersCtx.tla cases against the real client',
+   text='Buffers.tla models pooled frame buffers shared by all connections (Recv / Hand / Release) with the copy rule of each data path; TLC checks exhaustively that no value held by user code is backed by a released buffer unless NoCopy was requested on that path, and that each deviation of the catalogue (NoCopyReqArgs, NoCopyReply, NoCopyStreamMsg, ErrTextAlias, ReleaseBeforeDecode) violates an invariant; each path is bound to a workload where user code keeps what it was handed (handler arguments, replies, error values, stream messages on both ends) under aliasing codecs, unaligned buffer sizes, payload sizes swept around the buffer size and its aligned capacity, two connections sharing the pools, then churn traffic, and everything kept is compared again; BuffersCtx.tla enumerates capacity x length cases of the context-buffer placement rule, each run on the real client with guard bytes. The model decides the design; conformance of the code is by observation of changed bytes, hence exploration rather than model checking.',
+   note='Trusted base: TLC; Buffers.tla; the stress engine and its aliasing codec. Pool reuse is provoked by traffic, not forced.'),
+ 'C12': dict(level='exploration', ref='6 C12', technique='TLC enumeration of the configuration space (Config.tla) + the same seeded workload on the real library under a pairwise-covering (quick) / sampled (thorough) set of configurations, transcripts compared',
+   text='Config.tla states which combinations are supported (network x TLS x header encoder x body codec x configured by name or constructor x poll x pipelining x direct I/O x context buffer x NoCopy x client modes x buffer size, with the documented exclusions) and that name/constructor resolution is symmetric between client and server; TLC enumerates the 64512 configurations; the harness hosts a real server and client per chosen configuration, runs one seeded workload (sizes 0..80000, failing calls, every call form and handler shape) and requires every call to match the expected transcript and all transcript digests to agree.',
+   note='Trusted base: TLC; Config.tla; the stress engine; TLS with a harness-generated certificate; poll branch hosted by the harness listener. Quick covers all pairs of settings, thorough adds 6000 random configurations.'),
  'C13': dict(level=MC, ref='6 C13', technique='TLC model checking of Transport.tla + trace validation of pool decisions of the real rpc.Transport',
    text='Exhaustive TLC check of PoolBound / IdleBound / OpenBound / NoLeak over all interleavings of concurrent getConn (three paths), call registration and return, housekeeping passes, CloseIdleConnections, Close and server kill/restart; TLC behaviours, the counterexamples of DialNoLimit / EnqueueNoLimit / OverflowNotClosed and ungated concurrent bursts (including non-positive and over-large limits) are run on the real Transport; every pool decision, stamped under connsMu, is replayed on the model and the bounds are evaluated in every state.',
    note=TRANS_NOTE),
